@@ -444,6 +444,19 @@ func init() {
 	reg([]string{"github.com/cosmos/cosmos-sdk/x/auth/types.NewModuleAddress"}, one(func(x *Exec, s *State, r *Value, a []*Value, c *ast.CallExpr) *Value {
 		return prim(modAddr(a[0].T), x.resType(c, 0))
 	}))
+	// address.Module(moduleName, derivationKey): a deterministic address, modelled as an uninterpreted function of the
+	// module name and of the identity of the key bytes (distinctness from other accounts is NOT assumed)
+	reg([]string{"github.com/cosmos/cosmos-sdk/types/address.Module"}, one(func(x *Exec, s *State, r *Value, a []*Value, c *ast.CallExpr) *Value {
+		var kt *Term
+		if len(a) > 1 && a[1] != nil && a[1].K == KBytes && a[1].B != nil && a[1].B.T != nil {
+			kt = a[1].B.T
+		} else if len(a) > 1 && a[1] != nil && a[1].K == KPrim {
+			kt = a[1].T
+		} else {
+			kt = Fresh("addr.module.key", SInt)
+		}
+		return prim(App("addr.module", SInt, a[0].T, kt), x.resType(c, 0))
+	}))
 	reg([]string{"github.com/cosmos/cosmos-sdk/types/address.MustLengthPrefix"}, one(func(x *Exec, s *State, r *Value, a []*Value, c *ast.CallExpr) *Value {
 		if a[0].K == KBytes {
 			return a[0]
